@@ -18,6 +18,7 @@ import (
 	"io"
 	"os"
 	"strings"
+	"unicode/utf8"
 
 	"github.com/ohler55/slip"
 	_ "github.com/ohler55/slip/pkg"
@@ -51,6 +52,12 @@ type Case struct {
 	Pin      *Pin   `json:"pin,omitempty"`
 	// Zero enables zero-length reads and Err read errors in the plans.
 	Zero bool `json:"zero_reads,omitempty"`
+	// RFSAscii: cl:read-from-string only sees ASCII texts (known finding
+	// C02-read-from-string-bytes).
+	RFSAscii bool `json:"rfs_ascii,omitempty"`
+	// RFSFirst: cl:read-from-string reads only the first form, from :start 0
+	// (known finding C02-read-from-string-start).
+	RFSFirst bool `json:"rfs_first,omitempty"`
 	// SkipFronts lists front ends left out (known findings).
 	SkipFronts []string `json:"skip_fronts,omitempty"`
 	Seed       uint64   `json:"plan_seed"`
@@ -189,6 +196,8 @@ func (e *engine) Generate(seed uint64, idx int, tier string, avoid []harness.Fin
 		c.Show = fmt.Sprintf("<%d bytes of comment>", len(text)-300) + text[len(text)-300:]
 	}
 	c.Zero = r.Pct(30) && !avoidTrig(avoid, "zero-read")
+	c.RFSAscii = avoidTrig(avoid, "rfs-nonascii")
+	c.RFSFirst = avoidTrig(avoid, "rfs-start")
 	for _, f := range avoid {
 		if strings.HasPrefix(f.Trigger, "front:") {
 			c.SkipFronts = append(c.SkipFronts, strings.TrimPrefix(f.Trigger, "front:"))
@@ -422,7 +431,7 @@ func (c *collector) Call(s *slip.Scope, args slip.List, depth int) slip.Object {
 	return nil
 }
 
-var fronts = []string{"ReadStream", "ReadStreamOne", "ReadStreamEach", "ReadStreamPush", "cl:read-seek", "cl:read-all-seek", "cl:read-all-nonseek", "cl:peek+read-nonseek-safe", "swank:wire"}
+var fronts = []string{"ReadStream", "ReadStreamOne", "ReadStreamEach", "ReadStreamPush", "cl:read-seek", "cl:read-all-seek", "cl:read-all-nonseek", "cl:peek+read-nonseek-safe", "swank:wire", "cl:read-from-string"}
 
 func scopeFor(c *Case) *slip.Scope {
 	s := slip.NewScope()
@@ -434,6 +443,18 @@ func scopeFor(c *Case) *slip.Scope {
 // reference computes what the text denotes for a front end.
 func reference(c *Case, front string) outcome {
 	s := scopeFor(c)
+	if front == "cl:read-from-string" && c.RFSFirst {
+		return capture(func() ([]slip.Object, int) {
+			code, pos := slip.ReadOne(c.Text, s)
+			if len(code) == 0 {
+				return nil, 0
+			}
+			for pos < len(c.Text) && strings.IndexByte(" \n\t\r", c.Text[pos]) >= 0 {
+				pos++ // read-from-string skips the white space after the form
+			}
+			return code[:1], pos
+		})
+	}
 	switch front {
 	case "swank:wire":
 		// the framed payload denotes its first object (nil if there is none)
@@ -489,6 +510,35 @@ func runFront(c *Case, front string, p Plan) (outcome, *source) {
 				panic(wireError{err})
 			}
 			return []slip.Object{obj}, 0
+		case "cl:read-from-string":
+			// the Lisp face of "one form at a time": each call starts at the
+			// position the previous one returned (no stream, no faults)
+			s.Let("sim-text", slip.String(c.Text))
+			s.Let("sim-eofv", slip.Symbol("sim-eof-marker"))
+			code := slip.ReadString("(multiple-value-list (read-from-string sim-text nil sim-eofv :start sim-pos))", slip.NewScope())
+			var all []slip.Object
+			pos := 0
+			nchars := len([]rune(string(c.Text)))
+			for i := 0; i < 10000 && pos < nchars; i++ {
+				s.Let("sim-pos", slip.Fixnum(pos))
+				res, _ := code.Eval(s, nil).(slip.List)
+				if len(res) != 2 {
+					panic(fmt.Sprintf("read-from-string returned %s", slip.ObjectString(res)))
+				}
+				if res[0] == slip.Symbol("sim-eof-marker") {
+					break
+				}
+				np, _ := res[1].(slip.Fixnum)
+				if int(np) <= pos {
+					panic(fmt.Sprintf("read-from-string :start %d returned position %d", pos, np))
+				}
+				all = append(all, res[0])
+				pos = int(np)
+				if c.RFSFirst {
+					return all, pos
+				}
+			}
+			return all, 0
 		case "string:one-at-a-time":
 			// the third delivery named by the property: repeated one-form
 			// reads of the string, each from the reported end of the last
@@ -618,7 +668,7 @@ func judge(c *Case, front string, p Plan, ref, got outcome) *harness.Violation {
 		if !sameObjects(ref, got) {
 			return viol("objects-differ", "%s: string read gives %v but the stream read gives %v", where, ref.objs, got.objs)
 		}
-		if (front == "ReadStreamOne" || front == "cl:read-seek") && ref.pos != got.pos {
+		if (front == "ReadStreamOne" || front == "cl:read-seek" || (front == "cl:read-from-string" && c.RFSFirst)) && ref.pos != got.pos {
 			return viol("position", "%s: the form ends at %d but the stream read reports %d", where, ref.pos, got.pos)
 		}
 	case "partial":
@@ -631,6 +681,24 @@ func judge(c *Case, front string, p Plan, ref, got outcome) *harness.Violation {
 		}
 	}
 	return nil
+}
+
+func isASCII(b []byte) bool {
+	for _, c := range b {
+		if c >= 0x80 {
+			return false
+		}
+	}
+	return true
+}
+
+func contains(xs []string, x string) bool {
+	for _, y := range xs {
+		if x == y {
+			return true
+		}
+	}
+	return false
 }
 
 func planKey(front string, p Plan) string {
@@ -693,6 +761,9 @@ func (e *engine) Execute(raw json.RawMessage) (vd harness.Verdict) {
 	refs := map[string]outcome{}
 	defer func() { refs = nil }()
 	for _, f := range append([]string{"string:one-at-a-time"}, fronts...) {
+		if f == "cl:read-from-string" && !utf8.Valid(c.Text) {
+			continue
+		}
 		refs[f] = reference(&c, f)
 	}
 	if refs["ReadStream"].kind == "go-panic" {
@@ -769,13 +840,22 @@ func (e *engine) Execute(raw json.RawMessage) (vd harness.Verdict) {
 		vd.V = run(c.Pin.Front, c.Pin.Plan)
 		return
 	}
-	// zero-fault baseline: the string read one form at a time
-	if v := run("string:one-at-a-time", Plan{ErrAfter: -1}); v != nil {
-		pinned := c
-		pinned.Pin = &Pin{Front: "string:one-at-a-time", Plan: Plan{ErrAfter: -1}}
-		vd.Pinned, _ = json.Marshal(pinned)
-		vd.V = v
-		return
+	// zero-fault baselines: the string read one form at a time, through
+	// the Go API and through cl:read-from-string
+	for _, zf := range []string{"string:one-at-a-time", "cl:read-from-string"} {
+		if skip0 := contains(c.SkipFronts, zf); skip0 {
+			continue
+		}
+		if zf == "cl:read-from-string" && c.RFSAscii && !isASCII(c.Text) {
+			continue
+		}
+		if v := run(zf, Plan{ErrAfter: -1}); v != nil {
+			pinned := c
+			pinned.Pin = &Pin{Front: zf, Plan: Plan{ErrAfter: -1}}
+			vd.Pinned, _ = json.Marshal(pinned)
+			vd.V = v
+			return
+		}
 	}
 	skip := map[string]bool{}
 	for _, f := range c.SkipFronts {
@@ -783,7 +863,7 @@ func (e *engine) Execute(raw json.RawMessage) (vd harness.Verdict) {
 	}
 	for _, p := range plansFor(&c) {
 		for _, f := range fronts {
-			if skip[f] {
+			if skip[f] || f == "cl:read-from-string" {
 				continue
 			}
 			if v := run(f, p); v != nil {
@@ -873,6 +953,17 @@ func (e *engine) Matches(raw json.RawMessage, v *harness.Violation, f harness.Fi
 	switch {
 	case f.Trigger == "":
 		return true
+	case f.Trigger == "rfs-start":
+		if c.Pin == nil || c.Pin.Front != "cl:read-from-string" || c.RFSFirst {
+			return false
+		}
+		code := func() (n int) {
+			defer func() { _ = recover() }()
+			return len(slip.ReadString(string(c.Text), slip.NewScope()))
+		}()
+		return code != 1
+	case f.Trigger == "rfs-nonascii":
+		return c.Pin != nil && c.Pin.Front == "cl:read-from-string" && !isASCII(c.Text)
 	case f.Trigger == "zero-read":
 		if c.Pin == nil {
 			return false
